@@ -95,6 +95,8 @@ def parse_kind(s) -> Kind:
     s = s.strip()
     if s in _PRIMS:
         return _PRIMS[s]
+    if s.startswith("Any:"):
+        return KPrim(s, INT)
     m = re.match(r"^(\w+)\[(.*)\]$", s)
     if m:
         head, body = m.group(1), m.group(2)
@@ -219,8 +221,11 @@ class VStr(Value):
 class VAny(Value):
     kind = K_ANY
 
-    def __init__(self, t: T):
+    def __init__(self, t: T, tag=None):
         self.t = t
+        self.tag = tag
+        if tag:
+            self.kind = KPrim("Any:" + tag, INT)
 
 
 class VNoneT(Value):
@@ -373,8 +378,9 @@ def from_comps(k: Kind, comps):
     def take(kk):
         if isinstance(kk, KPrim):
             t = comps.pop(0)
-            return {INT: VInt, BOOL: VBool, SEQI: VBytes, STR: VStr, REAL: VFloat}[kk.sort](t) \
-                if kk is not K_ANY else VAny(t)
+            if kk.name.startswith("Any"):
+                return VAny(t, kk.name[4:] or None)
+            return {INT: VInt, BOOL: VBool, SEQI: VBytes, STR: VStr, REAL: VFloat}[kk.sort](t)
         if isinstance(kk, KNone):
             return VNone
         if isinstance(kk, KRef):
